@@ -289,6 +289,9 @@ def w_model(ctx, rng, i):
     n = {"n>d": d + int(rng.integers(2, 12)), "n=d": d, "n=d+1": d + 1, "n=d-1": max(2, d - 1), "n<d": max(2, d - int(rng.integers(2, d)))}[rel]
     if backing == "vector":
         X = spectrum_data(rng, n, d, centre)
+        if rng.random() < 0.4:
+            # the data in any unit: nanometres to kilometres (the documented cut-off of the decomposition is relative)
+            X = X * 10.0 ** rng.uniform(-10, 5)
         Xin = X.copy() if rng.random() < 0.5 else [row.copy() for row in X]
         model = PCAVectorModel(Xin, centre=centre, inplace=bool(rng.random() < 0.5))
     else:
@@ -299,7 +302,7 @@ def w_model(ctx, rng, i):
     m, lam, V = reference(X, centre)
     ctx.tap("svd_reference", "calls"); ctx.tap("svd_reference", "checked")
     # ---- fitted model vs independent SVD
-    scale = max(1.0, float(np.abs(X).max()))
+    scale = max(1e-300, float(np.abs(X).max()))     # tolerances relative to the size of the data
     if model.n_samples != n:
         ctx.fail("n_samples_wrong", cls=cls)
     if _amax(model._mean - m) > 1e-9 * scale:
